@@ -44,9 +44,11 @@ func VerifHarness_C15_NRGBA() {
 	kind := verifKind()
 	src, bufs := img.VerifSource(kind, g)
 	before := verifSnapshot(bufs)
+	palBefore := img.VerifPaletteCopy(src)
 	out := ConvertImageToNRGBA(src, verifPar(g.R.Dy()))
 	verifReach("converted")
 	verifAssert(verifUnchanged(before, bufs), "NRGBA helper modified its input")
+	verifAssert(img.VerifPaletteIntact(src, palBefore), "NRGBA helper modified its input's palette")
 	if s, same := src.(*image.NRGBA); same {
 		verifAssert(out == s, "NRGBA helper: input of the target type is not returned as the same instance")
 		return
@@ -64,9 +66,11 @@ func VerifHarness_C15_RGBA() {
 	kind := verifKind()
 	src, bufs := img.VerifSource(kind, g)
 	before := verifSnapshot(bufs)
+	palBefore := img.VerifPaletteCopy(src)
 	out := ConvertImageToRGBA(src, verifPar(g.R.Dy()))
 	verifReach("converted")
 	verifAssert(verifUnchanged(before, bufs), "RGBA helper modified its input")
+	verifAssert(img.VerifPaletteIntact(src, palBefore), "RGBA helper modified its input's palette")
 	if s, same := src.(*image.RGBA); same {
 		verifAssert(out == s, "RGBA helper: input of the target type is not returned as the same instance")
 		return
@@ -84,9 +88,11 @@ func VerifHarness_C15_RGBA64() {
 	kind := verifKind()
 	src, bufs := img.VerifSource(kind, g)
 	before := verifSnapshot(bufs)
+	palBefore := img.VerifPaletteCopy(src)
 	out := ConvertImageToRGBA64(src, verifPar(g.R.Dy()))
 	verifReach("converted")
 	verifAssert(verifUnchanged(before, bufs), "RGBA64 helper modified its input")
+	verifAssert(img.VerifPaletteIntact(src, palBefore), "RGBA64 helper modified its input's palette")
 	if s, same := src.(*image.RGBA64); same {
 		verifAssert(out == s, "RGBA64 helper: input of the target type is not returned as the same instance")
 		return
